@@ -38,6 +38,7 @@ type Query {
   count: Int!
   team: Team
   find(kind: Kind, first: Int!, after: String): [User!]!
+  top(limit: Int! = 5, kind: Kind! = A, offset: Int = 0): [User!]!
 }
 type Mutation { renameUser(userId: ID!, newName: String!): User updatePost(title: String, published: Boolean, id: ID!): Post }
 '''
@@ -91,6 +92,8 @@ ROOTS = [
     ("Query.node(id='n1')", 'node(id: "n1")', "node", {"interface"}),
     ("Query.team()", "team", "team", set()),
     ("Query.find(first=10)", "find(first: 10)", "user_small", {"optional_before_required_arg"}),
+    ("Query.top(limit=2, kind=Kind.A)", "top(limit: 2, kind: A)", "user_small", {"nonnull_default_arg", "enum_arg"}),
+    ("Query.top(limit=2, kind=Kind.B, offset=1)", "top(limit: 2, kind: B, offset: 1)", "user_small", {"nonnull_default_arg", "enum_arg"}),
     ("Query.find(kind=Kind.A, first=5, after='c')", 'find(kind: A, first: 5, after: "c")', "user_small", {"optional_before_required_arg", "enum_arg"}),
 ]
 SEARCH_SELS = [
